@@ -37,6 +37,14 @@ for _j in _JUNK:
         CRAFTED.append((_tmpl % _j).encode("utf-8"))
 
 
+# many unterminated / odd constructs in one file, separated by ordinary text (a table of glob strings, a list of URLs, a column of
+# quotes): whatever a recogniser does when one of them fails to close, it does it dozens of times here
+for _j in _JUNK + ["/* a", "\"x", "info!(", "info!(\"", "(", "[ref: ", "ref = ", "target: \"", "a = \"", "'\"'", "r#\"", "b\""]:
+    for _sep, _n in ((" ", 40), ('", "', 30), ("\n", 60), (" x = 1;\n    ", 25), ("\n", 400)):
+        CRAFTED.append(((_j + _sep) * _n).encode("utf-8"))
+    CRAFTED.append(('    let globs = ["src%s", "tests%s", "benches%s"];\n' % (_j, _j, _j) * 12).encode("utf-8"))
+
+
 for _tail in (b"\xc3", b"\xe2\x82", b"\xf0\x9f\x98", b"\xe4", b"\xf0", b"\xf0\x9f"):
     CRAFTED.append(b'fn f() { info!("ok"); }\n// Gr' + _tail)
     CRAFTED.append(b'info!("cut ' + _tail)
@@ -70,12 +78,12 @@ def ordinary(data):
     return max((len(m.group(0)) for m in RUNCHARS.finditer(data)), default=0) <= 512
 
 
-def run_files(built, files, structured, mode, timeout, trace=False, idbase=None):
+def run_files(built, files, structured, mode, timeout, trace=False, idbase=None, rules=None):
     with core.Box(tag="c17") as box:
         for rel, d in files.items():
             box.write(rel, d)
         cfg = box.write("Breadlog.yaml", core.make_config(structured=True if structured else None, use_cache=False))
-        rec = core.run_breadlog(built, box, cfg, check=(mode == "check"), timeout=timeout, trace=trace)
+        rec = core.run_breadlog(built, box, cfg, check=(mode == "check"), timeout=timeout, trace=trace, rules=rules, shim=bool(rules))
         after = {}
         for rel in files:
             try:
@@ -179,7 +187,9 @@ def work(job):
         # bisect the batch to single files; re-run the rest without each culprit so one defect cannot mask another
         remaining = dict(files)
         found = 0
-        while remaining and found < 4:
+        # a run that has used 1.5 x its CPU budget is convicted already: no need to let every bisection step run three times as long
+        bt = (1.5 * budget + 10) if what == "timeout" else (3 * budget + 30)
+        while remaining and found < (2 if what == "timeout" else 4):
             names = sorted(remaining)
             culprit = None
             lo, hi = 0, len(names)
@@ -187,14 +197,14 @@ def work(job):
             cur = names
             while len(cur) > 1:
                 half = cur[:len(cur) // 2]
-                r2, _ = run_files(built, {n: remaining[n] for n in half}, structured, mode, timeout=3 * budget + 30)
+                r2, _ = run_files(built, {n: remaining[n] for n in half}, structured, mode, timeout=bt)
                 res["evaluations"] += 1
                 if bad(r2) == what or (what == "cpu-over-budget" and r2.cpu > budget):
                     cur = half
                 else:
                     cur = cur[len(cur) // 2:]
             culprit = cur[0]
-            r3, _ = run_files(built, {culprit: remaining[culprit]}, structured, mode, timeout=3 * budget + 30)
+            r3, _ = run_files(built, {culprit: remaining[culprit]}, structured, mode, timeout=bt)
             res["evaluations"] += 1
             still = bad(r3) == what or (what == "cpu-over-budget" and r3.cpu > budget and ordinary(remaining[culprit]))
             if not still:
@@ -211,7 +221,7 @@ def work(job):
                                                  "structured": structured, "cpu_s": r3.cpu, "budget_s": budget},
                                       "case": {"data": small if len(small) < 4000 else data[:4000], "structured": structured, "mode": mode}})
             found += 1
-            r4, _ = run_files(built, remaining, structured, mode, timeout=3 * budget + 30)
+            r4, _ = run_files(built, remaining, structured, mode, timeout=bt)
             res["evaluations"] += 1
             if not (bad(r4) == what):
                 break
@@ -237,11 +247,22 @@ def skip_work(job):
         badfile = b'fn b() { info!("whole"); }\n// Gr' + [b"\xc3", b"\xe2\x82", b"\xf0\x9f\x98"][(i // 3) % 3]
     files = {"src/bad%d.rs" % i: badfile, "src/good.rs": b'fn g() { info!("good one"); }\n',
              "src/zz_last.rs": b'fn z() { warn!("also good"); }\n', "src/aa_first.rs": b'fn a() { error!("good too"); }\n'}
+    rules = None
+    if i % 4 == 3:
+        # the content is fine but the operating system refuses the file (permissions, I/O error, vanished after discovery)
+        from .. import fault
+        en = ["EACCES", "EIO", "ENOENT", "EPERM", "EISDIR", "EMFILE"][(i // 4) % 6]
+        files["src/bad%d.rs" % i] = b'fn b() { info!("readable text, unreadable file"); }\n'
+        rules = "kind=openr,path~=bad%d.rs,act=errno:%d" % (i, fault.ERRNO[en])
+        badbytes = en.encode()
     for mode in ("check", "edit"):
-        rec, after = run_files(built, files, False, mode, 60)
+        rec, after = run_files(built, files, False, mode, 60, rules=rules)
+        if rules and not any(o["fired"] for o in (rec.shim or [])):
+            res["inconclusive"]["open error injection did not fire"] = 1
+            continue
         if bad(rec):
-            res["violations"].append({"signature": "C17.%s|unreadable-file-tree" % bad(rec), "detail": {"stderr": rec.err[-300:]},
-                                      "case": {"data": files["src/bad%d.rs" % i], "structured": False, "mode": mode}})
+            res["violations"].append({"signature": "C17.%s|unreadable-file-tree" % bad(rec), "detail": {"stderr": rec.err[-300:], "rules": rules},
+                                      "case": {"data": files["src/bad%d.rs" % i], "structured": False, "mode": mode, "skipjob": [seed, i]}})
             continue
         named = any(("bad%d.rs" % i) in p for p in rec.failed_reads())
         clause = None
@@ -255,8 +276,8 @@ def skip_work(job):
             clause = "good-file-not-checked-next-to-unreadable-one"
         if clause:
             res["violations"].append({"signature": "C17.%s|%s" % (clause, mode), "detail": {"stdout": rec.out[-400:], "exit": rec.ended()},
-                                      "case": {"data": files["src/bad%d.rs" % i], "structured": False, "mode": mode, "skip": True}})
-    res["nontrivial"].append("skip|%s" % badbytes.hex())
+                                      "case": {"data": files["src/bad%d.rs" % i], "structured": False, "mode": mode, "skip": True, "skipjob": [seed, i]}})
+    res["nontrivial"].append("skip|%s" % (badbytes.hex() if not rules else badbytes.decode()))
     res["counters"]["unreadable_file_trees"] = 1
     return res
 
@@ -291,7 +312,7 @@ def main(tier):
     rnd.shuffle(jobs)
     for res in frame.pmap(work, jobs, chunksize=1):
         ck.absorb(res)
-    for res in frame.pmap(skip_work, [(built, ck.seed, i) for i in range(10 if quick else 100)]):
+    for res in frame.pmap(skip_work, [(built, ck.seed, i) for i in range(24 if quick else 240)]):
         ck.absorb(res)
     if tier == "thorough":
         try:
@@ -320,6 +341,8 @@ def main(tier):
 def replay_witness(w, ck=None, built=None):
     built = built or (ck.built if ck else None) or core.build_repo()
     c = w["case"] if "case" in w else w["first"]["case"]
+    if c.get("skipjob"):
+        return bool(skip_work((built, c["skipjob"][0], c["skipjob"][1]))["violations"])
     d = c["data"]
     data = bytes.fromhex(d["hex"]) if isinstance(d, dict) else d.encode("utf-8")
     rec, _ = run_files(built, {"src/m.rs": data}, c["structured"], c["mode"], 120)
